@@ -101,6 +101,10 @@ func init() {
 			pc.ExtraPkgs = []extraPkg{{Pkg: "./logm", Run: "^TestC18Follower$", Quick: 4000, Thorough: 150000}}
 		case "C16":
 			pc.ExtraPkgs = []extraPkg{{Pkg: "./pure", Run: "^TestC16Flow$", Quick: 15000, Thorough: 400000}}
+		case "C14", "C20":
+			// the goroutine wrapper raft.Node (node.go), which the simulator
+			// bypasses by driving RawNode
+			pc.ExtraPkgs = []extraPkg{{Pkg: "./nodeapi", Run: "^TestNodeAPI$", Quick: 100, Thorough: 5000}}
 		}
 		props[id] = pc
 	}
